@@ -177,6 +177,14 @@ func vBound(name string) int {
 	return v
 }
 
+// vConcretize returns x, which the engine forces to a concrete value in [0, n) by forking.
+func vConcretize(x uint64, n int) int {
+	if x >= uint64(n) {
+		panic(vAssumeFalse{})
+	}
+	return int(x)
+}
+
 func vOnPanic(label string) { vRT.panicLbl = label }
 func vOnFatal(label string) { vRT.fatalLbl = label }
 func vSymbolic() bool       { return false }
